@@ -420,7 +420,33 @@ def check_vcf(prog, rep, tier):
                 continue
             rep.unrec("R5-vcf", construct, "statement in the record loop not modelled: %s" % dump(st)[:60])
             good = False
-        for lst, fld in want_src.items():
+        # roles come from the constructor keywords: keyword k -> local -> (conversions) -> the list filled in the record loop
+        fdefs = {}
+        for n in walk_no_nested(f.node):
+            if isinstance(n, ast.Assign) and len(n.targets) == 1 and isinstance(n.targets[0], ast.Name):
+                fdefs.setdefault(n.targets[0].id, []).append(n.value)
+        ctor0 = [n for n in walk_no_nested(f.node) if isinstance(n, ast.Call) and isinstance(n.func, ast.Name) and n.func.id == "cls"]
+        kws0 = kwargs_of(ctor0[0])[0] if len(ctor0) == 1 else {}
+
+        def list_of(e, depth=0, seen=()):
+            if e is None or depth > 6:
+                return None
+            names = [x.id for x in ast.walk(e) if isinstance(x, ast.Name)]
+            hit = [x for x in names if x in appended]
+            if hit:
+                return hit[0]
+            for x in names:
+                if x in fdefs and x not in seen:
+                    for d in fdefs[x]:
+                        if isinstance(d, ast.List) and not d.elts:
+                            continue
+                        r_ = list_of(d, depth + 1, seen + (x,))
+                        if r_:
+                            return r_
+            return None
+        role_list = {k: list_of(kws0.get(k)) for k in list(want_src) + ["mat"]}
+        for key, fld in want_src.items():
+            lst = role_list.get(key) or key
             a = appended.get(lst)
             if a is None:
                 rep.violate("R5-vcf", construct, "%s is not collected per record" % lst, where(f, loop))
@@ -432,7 +458,7 @@ def check_vcf(prog, rep, tier):
                             where(f, a), "variant." + fld, dump(a)[:40])
                 good = False
         # allele calls
-        a = appended.get("mat")
+        a = appended.get(role_list.get("mat") or "mat")
         okslice = False
         if a is not None:
             for n in ast.walk(a):
@@ -477,10 +503,6 @@ def check_vcf(prog, rep, tier):
         ctor = [n for n in walk_no_nested(f.node) if isinstance(n, ast.Call) and isinstance(n.func, ast.Name) and n.func.id == "cls"]
         if len(ctor) == 1:
             kws, _ = kwargs_of(ctor[0])
-            for k, v in kws.items():
-                if isinstance(v, ast.Name) and v.id != k:
-                    rep.violate("R5-vcf", construct, "constructor receives %s=%s" % (k, v.id), where(f, ctor[0]), "%s=%s" % (k, k), v.id)
-                    good = False
             for k in ("mat", "taxa", "vrnt_chrgrp", "vrnt_phypos", "vrnt_name"):
                 if k not in kws:
                     rep.violate("R5-vcf", construct, "imported %s is not handed to the constructor" % k, where(f, ctor[0]))
@@ -488,9 +510,13 @@ def check_vcf(prog, rep, tier):
         else:
             rep.unrec("R5-vcf", construct, "constructor call not found")
             good = False
-        samples = [n for n in walk_no_nested(f.node) if isinstance(n, ast.Assign) and len(n.targets) == 1
-                   and isinstance(n.targets[0], ast.Name) and n.targets[0].id == "taxa"]
-        if not (len(samples) == 1 and any(isinstance(m, ast.Attribute) and m.attr == "samples" for m in ast.walk(samples[0].value))):
+        def reaches_samples(e, depth=0, seen=()):
+            if e is None or depth > 6:
+                return False
+            if any(isinstance(m, ast.Attribute) and m.attr == "samples" for m in ast.walk(e)):
+                return True
+            return any(reaches_samples(d, depth + 1, seen + (x.id,)) for x in ast.walk(e) if isinstance(x, ast.Name) and x.id in fdefs and x.id not in seen for d in fdefs[x.id])
+        if not reaches_samples(kws0.get("taxa")):
             rep.violate("R5-vcf", construct, "taxa names are not taken from the VCF sample list", where(f), "vcf.samples", "other")
             good = False
         if good:
